@@ -18,7 +18,9 @@ RULE = ("a full grid of cells: 1-4 columns x 1-4 rows, column/row boundaries = o
         "enumerated with blocking clauses, projected on the per-box cell variables; the set must equal my own enumeration of "
         "k-tuples (trunk, branches) of non-empty full rectangles of cells, pairwise disjoint, each branch abutting the trunk along "
         "one whole side of the branch inside the trunk's extent.  solve: rect.solve(carrier, ifile, 2.0, (b, 1), k) for bounds b "
-        "from below the minimum to above the maximum attainable cost.  non-trivial = >= 4 cells and k >= 2; distinct = distinct case.")
+        "from below the minimum to above the maximum attainable cost.  fromalloc: generated allocations (tree or text form) through "
+        "rect_io.get_alloc and select_box for every module and for an absent one; the blocks must be the cells, in order, with the "
+        "module's ratio.  non-trivial = >= 4 cells and k >= 2; distinct = distinct case.")
 ASSUMPTIONS = [
     "the grid is complete (every cell of the rows x columns grid is a block), as select_box builds it from a gridded allocation",
     "coordinates are multiples of 0.5 and occupancies multiples of 1/4 with factor 16, so that int(factor*p*w*h) is exact",
@@ -157,6 +159,8 @@ def run_models(c):
     cls = ["k=%d" % k]
     if c["ox"] or c["oy"]:
         cls.append("origin!=0")
+    if max(c["ox"], c["oy"]) >= 200000:
+        cls.append("coordinates-with-7+-significant-digits")
     if (xs[-1] - xs[0]).denominator != 1 or (ys[-1] - ys[0]).denominator != 1:
         cls.append("fractional-extent")
     if len(set(c["gx"])) > 1 or len(set(c["gy"])) > 1:
@@ -250,8 +254,9 @@ def grid_s(draw, max_dim=3, ks=(1, 2, 2, 3), max_cells_k3=9):
     g = draw(st.sampled_from([1, 2, 3, 4]))
     gx = [g] * nc if uniform else [draw(st.sampled_from([1, 2, 3, 5])) for _ in range(nc)]
     gy = [g] * nr if uniform else [draw(st.sampled_from([1, 2, 4])) for _ in range(nr)]
-    ox = draw(st.sampled_from([0, 0, 0, 1, 4, 7]))
-    oy = draw(st.sampled_from([0, 0, 0, 2, 3]))
+    # origins in half units; the large ones give coordinates with 7-9 significant digits (100000.5, 1000001, 12345678.5)
+    ox = draw(st.sampled_from([0, 0, 0, 1, 4, 7, 200000, 2000001, 24691357]))
+    oy = draw(st.sampled_from([0, 0, 0, 2, 3, 200001, 2000000]))
     occ = [[draw(_i(0, 4)) for _ in range(nc)] for _ in range(nr)]
     perm = draw(st.permutations(list(range(nc * nr)))) if draw(_i(0, 3)) == 0 else None
     return dict(gx=gx, gy=gy, ox=ox, oy=oy, occ=occ, k=k, perm=perm)
@@ -291,10 +296,60 @@ def all_small(tier, shard, nshards):
                     yield dict(gx=[s["g"]] * nc, gy=[s["g"]] * nr, ox=s["ox"], oy=s["oy"], occ=[[1] * nc for _ in range(nr)], k=k, perm=None)
 
 
+def run_fromalloc(c):
+    """get_alloc + select_box: the grid handed to the search is the allocation's cells with the selected module's ratios."""
+    from gen import alloc as A
+    from gen import lattice as L
+    from tools.rect import rect_io
+    from vfw import exact as X
+    src = A.tree(c) if c["form"] == "tree" else A.text(c)
+    try:
+        ifile = rect_io.get_alloc(src)
+    except Exception as e:
+        raise Violation("get_alloc raised %s: %s on %s" % (type(e).__name__, e, A.text(c)), "get_alloc-raised")
+    mods = sorted({m for cell in c["cells"] for m in cell["a"]}) + ["NOT_THERE"]
+    exact = [L.to_fr(cell["r"], c["unit"]) for cell in c["cells"]]
+    x0, y0 = min(e[0] for e in exact), min(e[1] for e in exact)
+    x1, y1 = max(e[2] for e in exact), max(e[3] for e in exact)
+    scale = max(x1 - x0, y1 - y0)
+    if abs(Fr(ifile["Width"]) - (x1 - x0)) > scale / 10 ** 9 or abs(Fr(ifile["Height"]) - (y1 - y0)) > scale / 10 ** 9:
+        raise Violation("get_alloc reports %r x %r for an allocation spanning %s x %s" % (ifile["Width"], ifile["Height"], x1 - x0, y1 - y0),
+                        "get_alloc-size")
+    cls = [c["form"]]
+    for m in mods:
+        try:
+            ip, name = rect_io.select_box(m, ifile)
+        except Exception as e:
+            raise Violation("select_box(%r) raised %s: %s" % (m, type(e).__name__, e), "select_box-raised")
+        if name != m or len(ip) != len(c["cells"]):
+            raise Violation("select_box(%r) returned %d blocks for %d cells (name %r)" % (m, len(ip), len(c["cells"]), name), "select_box-count")
+        for cell, e, b in zip(c["cells"], exact, ip):
+            want = float(cell["a"].get(m, 0))
+            if any(abs(Fr(b[k]) - e[k]) > scale / 10 ** 9 for k in range(4)) or b[4] != want:
+                raise Violation("select_box(%r): block %r for cell %s with ratios %s (expected occupancy %r)" % (
+                    m, b, tuple(float(v) for v in e), cell["a"], want), "select_box-block")
+        if m != "NOT_THERE" and sum(1 for cell in c["cells"] if m in cell["a"]) >= 2:
+            cls.append("module-in-several-cells")
+    if any(not cell["a"] for cell in c["cells"]):
+        cls.append("empty-cell")
+    return dict(nt=len(c["cells"]) >= 3 and len(mods) >= 3, cls=cls)
+
+
+@st.composite
+def fromalloc_s(draw):
+    from gen import alloc as A
+    c = draw(A.alloc_case(sliver=False))
+    c["form"] = draw(st.sampled_from(["tree", "text"]))
+    return c
+
+
 def subchecks():
     return [
+        Sub("fromalloc", run_fromalloc, strategy=fromalloc_s(), n_quick=2000, n_thorough=40000,
+            required=("tree", "text", "module-in-several-cells", "empty-cell"),
+            desc="rect_io.get_alloc + select_box: the blocks handed to the search are the allocation's cells, in order, with the selected module's ratio (0 where absent)"),
         Sub("models", run_models, strategy=grid_s(), n_quick=4000, n_thorough=40000,
-            required=("origin!=0", "fractional-extent", "non-uniform", "blocks-permuted", "k=1", "k=2", "k=3")),
+            required=("origin!=0", "fractional-extent", "non-uniform", "blocks-permuted", "k=1", "k=2", "k=3", "coordinates-with-7+-significant-digits")),
         Sub("shapes", run_models, enum=all_small, exhaustive=True,
             desc="every grid shape up to 3x3 (quick) / 4x4 (thorough) for k = 1..3 on five coordinate systems (origins 0 / non-0, steps 0.5-2.5)"),
         Sub("solve", run_solve, strategy=solve_s(), n_quick=3000, n_thorough=40000,
